@@ -405,6 +405,9 @@ func runnerLineage(r *lib.Run, idx int) {
 			r.Count("runner.crash-images", 1)
 		}
 		post := readMeta(after, nslots)
+		if is := metaFormatIssue(after); is != nil {
+			viol(is.Class, is.Detail)
+		}
 		history[len(history)-1] += fmt.Sprintf(" => err=%v calls=%s commits=%d crashAfter=%d | after: current=%05b last=%05b states=%v",
 			rerr, fmtCalls(cl.calls), len(clog), crashK, uint64(post.Current), uint64(post.Last), post.States)
 
@@ -618,9 +621,7 @@ func refusalMatrix(r *lib.Run) {
 				for cur := last; ; cur = (cur - 1) & last { // all subsets of last
 					store := memory.New()
 					if last != 0 || cur != 0 || code%2 == 0 {
-						must(migration.WriteSchemaMetadata(store, migration.SchemaMetadata{
-							CurrentVersion: migration.SchemaVersion(cur), LastTargetVersion: migration.SchemaVersion(last),
-						}))
+						writeReleasedMeta(store, migration.SchemaVersion(cur), migration.SchemaVersion(last))
 					}
 					reg := migration.NewRegistry()
 					for i := 0; i < n; i++ {
